@@ -1271,8 +1271,12 @@ where
         let bits = self.bits.as_ref();
 
         if bit_index + self.bit_width <= W::BITS {
+            #[cfg(sux_verif)]
+            crate::verif::sched_point(1);
             (bits.get_unchecked(word_index).load(order) >> bit_index) & self.mask
         } else {
+            #[cfg(sux_verif)]
+            crate::verif::sched_point(2);
             ((bits.get_unchecked(word_index).load(order) >> bit_index)
                 | (bits.get_unchecked(word_index + 1).load(order) << (W::BITS - bit_index)))
                 & self.mask
@@ -1303,12 +1307,16 @@ where
 
         if bit_index + self.bit_width <= W::BITS {
             // this is consistent
+            #[cfg(sux_verif)]
+            crate::verif::sched_point(10);
             let mut current = bits.get_unchecked(word_index).load(order);
             loop {
                 let mut new = current;
                 new &= !(self.mask << bit_index);
                 new |= value << bit_index;
 
+                #[cfg(sux_verif)]
+                crate::verif::sched_point(11);
                 match bits
                     .get_unchecked(word_index)
                     .compare_exchange(current, new, order, order)
@@ -1318,6 +1326,8 @@ where
                 }
             }
         } else {
+            #[cfg(sux_verif)]
+            crate::verif::sched_point(20);
             let mut word = bits.get_unchecked(word_index).load(order);
             // try to wait for the other thread to finish
             fence(Ordering::Acquire);
@@ -1326,6 +1336,8 @@ where
                 new &= (W::ONE << bit_index) - W::ONE;
                 new |= value << bit_index;
 
+                #[cfg(sux_verif)]
+                crate::verif::sched_point(21);
                 match bits
                     .get_unchecked(word_index)
                     .compare_exchange(word, new, order, order)
@@ -1343,6 +1355,8 @@ where
             // should try to syncronize the threads as much as possible
             compiler_fence(Ordering::SeqCst);
 
+            #[cfg(sux_verif)]
+            crate::verif::sched_point(22);
             let mut word = bits.get_unchecked(word_index + 1).load(order);
             fence(Ordering::Acquire);
             loop {
@@ -1350,6 +1364,8 @@ where
                 new &= !(self.mask >> (W::BITS - bit_index));
                 new |= value >> (W::BITS - bit_index);
 
+                #[cfg(sux_verif)]
+                crate::verif::sched_point(23);
                 match bits
                     .get_unchecked(word_index + 1)
                     .compare_exchange(word, new, order, order)
